@@ -22,8 +22,8 @@ import (
 
 func init() {
 	register(Property{ID: "C40", Level: "other", Run: runC40,
-		Technique: "static analysis: select-shape rule on every cross-goroutine request send (go/ssa), module-wide lock-order graph from a must-held lock dataflow with transitive acquire summaries over static and interface (CHA within the module) callees, cycle detection",
-		Text:      "Decides two structural necessary conditions of deadlock-freedom; data races are NOT decided (they need a dynamic detector), nor is liveness under arbitrary schedules. (a) Every send on a struct-field channel that is received by a run loop of the same struct (the actor pattern: pathManager, path, Core, servers, static source handler, ...) is, outside that loop, one alternative of a blocking select whose other alternatives include a receive from the owner's context Done() (or terminate channel); path-to-manager calls additionally escape through the path's own context because the manager may be blocked in path.wait(); replies are received unconditionally after an accepted send (C19). (b) For every mutex field of the module the set of lock classes definitely held at each acquisition (directly or through the transitive summary of static and module-interface callees, excluding go statements) induces a lock-order graph; the graph has no cycle between distinct classes and no function re-acquires the write lock of the same receiver it already holds. (c) lock_released: for every acquisition of a struct-field mutex, every CFG path to a return of the acquiring function or to another acquisition of the same mutex passes the matching Unlock/RUnlock, a defer of it, or a hand-off `go x.f()` whose callee releases it on every path from its entry - a may-analysis that complements the must-held sets of (b), which cannot see a lock leaked on a single early-return path. Obligations = send sites + lock-order edges + acquisitions.",
+		Technique: "static analysis: select-shape rule on every cross-goroutine request send (go/ssa), module-wide lock-order graph from a must-held lock dataflow with transitive acquire summaries over static and interface (CHA within the module) callees, cycle detection; wait-for graph between actor loops from the blocking sends their loop goroutines perform synchronously",
+		Text:      "Decides two structural necessary conditions of deadlock-freedom; data races are NOT decided (they need a dynamic detector), nor is liveness under arbitrary schedules. (a) Every send on a struct-field channel that is received by a run loop of the same struct (the actor pattern: pathManager, path, Core, servers, static source handler, ...) is, outside that loop, one alternative of a blocking select whose other alternatives include a receive from the owner's context Done() (or terminate channel); path-to-manager calls additionally escape through the path's own context because the manager may be blocked in path.wait(); replies are received unconditionally after an accepted send (C19). (b) For every mutex field of the module the set of lock classes definitely held at each acquisition (directly or through the transitive summary of static and module-interface callees, excluding go statements) induces a lock-order graph; the graph has no cycle between distinct classes and no function re-acquires the write lock of the same receiver it already holds. (c) lock_released: for every acquisition of a struct-field mutex, every CFG path to a return of the acquiring function or to another acquisition of the same mutex passes the matching Unlock/RUnlock, a defer of it, or a hand-off `go x.f()` whose callee releases it on every path from its entry - a may-analysis that complements the must-held sets of (b), which cannot see a lock leaked on a single early-return path. (d) actor_wait_cycle: the goroutines that run the actor loops do not wait for each other: with an edge A -> B whenever code that runs on A's loop goroutine while it handles a message (the loop body and everything it calls synchronously - static callees, called closures, defers, module implementations of module-declared interfaces; not `go` statements) performs a blocking send on an actor channel of B, no actor sends to itself and no two actors send to each other (a message for a loop that may be waiting for the sender is handed to a fresh goroutine, as pathManager does with path.reloadConf); longer cycles are computed and counted but not failed on (c40r4MaxCycleLen: the unchanged tree has a genuine cycle path -> pathManager -> hls.Server -> path, reported as a finding). Obligations = send sites + lock-order edges + acquisitions + actor edges.",
 		Note:      "trusted: go/ssa; lock classes are (struct type, field) pairs - two instances of one type are not distinguished, so only cycles between distinct classes and same-receiver re-acquisitions are reported; held sets are must-sets (intersection at joins), so an edge exists only where the lock is held on every path; locks taken inside third-party code are not modelled"})
 	addMutants(
 		Mutant{"C40", "manager-call-without-escape", "internal/core/path_manager.go",
@@ -117,13 +117,14 @@ func runC40(c *Ctx) {
 	if p == nil {
 		return
 	}
-	c.Explain = "(a) send_escape: actor channels = struct fields of channel type that some method of the same struct receives from inside a `for { select }` loop (run loops). Every send on such a channel from a function that is not that loop must be a state of a blocking select that also has a receive state on (context.Context).Done(<owner>.ctx) or <owner>.terminate/.done; for sends from *core.path methods to pathManager channels the select must also contain the path's own ctx.Done(). (b) lock_order: must-held dataflow per function (Lock/RLock add, Unlock/RUnlock remove, deferred unlocks at exit), acquire summaries closed transitively over static callees and CHA-resolved module implementations of interface calls (go statements start a new context), edges held→acquired, Tarjan SCC; lock_reacquire: write lock taken (directly or through a callee on the same receiver) while the same receiver's lock is held. (c) lock_released: per acquisition, path walk to return / re-acquisition with the matching release (call, defer, deferred closure, goroutine hand-off with callee-entry release) as barrier. NOT decided: data races, fairness, blocking inside third-party code, channel protocols other than the actor pattern."
+	c.Explain = "(a) send_escape: actor channels = struct fields of channel type that some method of the same struct receives from inside a `for { select }` loop (run loops). Every send on such a channel from a function that is not that loop must be a state of a blocking select that also has a receive state on (context.Context).Done(<owner>.ctx) or <owner>.terminate/.done; for sends from *core.path methods to pathManager channels the select must also contain the path's own ctx.Done(). (b) lock_order: must-held dataflow per function (Lock/RLock add, Unlock/RUnlock remove, deferred unlocks at exit), acquire summaries closed transitively over static callees and CHA-resolved module implementations of interface calls (go statements start a new context), edges held→acquired, Tarjan SCC; lock_reacquire: write lock taken (directly or through a callee on the same receiver) while the same receiver's lock is held. (c) lock_released: per acquisition, path walk to return / re-acquisition with the matching release (call, defer, deferred closure, goroutine hand-off with callee-entry release) as barrier. (d) actor_wait_cycle (prop_r4_c40.go): actor = struct with a select-in-a-loop receiving from its own channel fields that are sent to elsewhere; edge A→B iff a function reachable from the loop BODY of A by synchronous calls (no go statements, no function values; interface calls resolved over module types for module-declared interfaces only) contains a bare send / a send state of a blocking select on an actor channel of B; FAIL for self edges and for pairs A→B, B→A (mutual wait: neither loop is at its select, the context escapes fire only at shutdown); code before the loop and after it (teardown, owner context done) is excluded. NOT decided: data races, fairness, blocking inside third-party code, channel protocols other than the actor pattern."
 	c.Assume = []string{"a goroutine blocked in a select with a Done()/terminate alternative is released when its owner shuts down", "request replies are unbuffered and awaited by the requester (C19)"}
 
 	c40Sends(c, p)
 	c40Locks(c, p)
 	c40PublishAfterInit(c, p)
 	c40LockReleased(c, p)
+	c40ActorWaitCycle(c, p)
 }
 
 // c40PublishAfterInit: a *stream.Reader that a connection/session hands to
